@@ -21,6 +21,7 @@ import json
 import numpy as np
 import common
 import c18_ext as X
+import c18_hist as H
 from common import Case, Failure, f2x, flist, parse_flist, close_vec
 
 PID = 'C18'
@@ -32,8 +33,9 @@ RULE = ('configurations = (method in fir/iir/filtered_fourier/filtered_boxcar) x
         '(windows incl. tuple windows, IIR types / ripples, iteration counts, orders); band edges on a bin and one ulp off (dyadic n, Fs); '
         'families = 7 entry points x int16/int32/int64/uint8/float32/F/strided/read-only/big-endian/float64 x 1-d/2-d/3-d (expectation: the '
         'C-contiguous float64 copy), amplitudes 1e-300..1e300, lb/ub spellings, coefficient spellings; sandwich histories (read all outputs, '
-        'other analyzers / options on the same series, scribble, fresh objects) and one fresh-process order reversal; refused values (3-d boxcar, 0 iterations)')
-ASSUMPTIONS = ['integer recordings within +-2*10^4 counts (scipy.signal.filtfilt extends the edges as 2*x0 - x in the input dtype); single precision (float32 data, or float32 coefficients with non-float64 data) judged at 1e-5 relative',
+        'other analyzers / options on the same series, scribble, fresh objects) and one fresh-process order reversal; round 4: parameter-stepping histories on ONE analyzer (assign band / options, reset(), re-read every method; widening, narrowing, disjoint, overlapping, option-only, refused settings, input overwritten / re-targeted; expectation = fresh analyzer; harness/c18_hist.py, session model); refused values (3-d boxcar, 0 iterations)')
+ASSUMPTIONS = ['parameter-stepping histories assign the attributes the getters read (lb, ub, _filt_order, _gpass, _gstop, _ftype, _win, _boxcar_iterations) and re-target by assigning _ts / data / sampling_rate / time_unit as __init__ does, each followed by reset() (ResetMixin protocol); a re-read without reset() legitimately returns the stored object',
+               'integer recordings within +-2*10^4 counts (scipy.signal.filtfilt extends the edges as 2*x0 - x in the input dtype); single precision (float32 data, or float32 coefficients with non-float64 data) judged at 1e-5 relative',
                'not generated because the code refuses them / outside the quantifier: 3-d data for the boxcar (checked as a refusal), boxcar_iterations=0 (refusal), lb=None, ub=0, iir_ftype bessel (scipy.signal.iirdesign has no order selection), odd FIR orders, complex data',
                '0 <= lb < ub <= Nyquist; fir/iir series longer than 3*(order+1) (scipy.signal.filtfilt refuses equality)',
                'the projection theorems are over C with an exact primitive root of unity; the Float DFT of the model and scipy.fftpack differ from it by rounding (1e-9 comparison)',
@@ -398,6 +400,14 @@ def cases(rng, tier, seed):
     for i in range(20 if big else 6):
         f, cs = X.sandwich(hr.randint(0, 10**6), want_cases=True)
         out += cs
+    # ---- L2 / L6 / L7 (round 4): parameter-stepping histories on ONE analyzer (assign, reset(), re-read every method),
+    # one protocol line per history and judged channel through the Lean session model (op `session`)
+    for sd, full in H.seeds(seed, tier):
+        r = common.call(lambda: H.history(sd, full, want_cases=True)[1])
+        if isinstance(r, str):
+            out.append(Case('C18 session - - - -', r, 'history/session/runs', meta={'kind': 'hist', 'sd': sd, 'full': full, 'ch': 0}))
+        else:
+            out += r
     return out
 
 
@@ -721,6 +731,15 @@ def oracle(rng, tier, seed, focus, cases_=None):
             fails.append(Failure('sandwich/raises', 'history sd=%d raised %s' % (sd, r), {'kind': 'sandwich', 'sd': sd}))
         elif r:
             fails.append(r)
+    hist_case = {(c.meta['sd'], c.meta['full']): c for c in (cases_ or []) if (c.meta or {}).get('kind') == 'hist' and c.meta.get('ch') == 0}
+    n_hist = 0
+    for sd, full in H.seeds(seed, tier):
+        n_hist += 1
+        r = common.call(lambda: H.history(sd, full, case_of=hist_case.get((sd, full)))[2])
+        if isinstance(r, str):
+            fails.append(Failure('history/raises', 'history sd=%d raised %s' % (sd, r), {'kind': 'hist', 'sd': sd, 'full': full}))
+        else:
+            fails += r
     for i in range(10 if tier == 'thorough' else 3):
         sd = hr.randint(0, 10**6)
         r = common.call(lambda: X.option_equiv(sd))
@@ -769,7 +788,7 @@ def oracle(rng, tier, seed, focus, cases_=None):
     keys = {}
     for f in fails:
         keys[f.key] = keys.get(f.key, 0) + 1
-    return fails, {'family_members_judged': n_fam, 'sandwich_histories': n_sw, 'configurations_judged': nj, 'probes_numeric_only': nprobe, 'robustness_experiments': n_rb, 'failed': len(fails), 'failure_keys': keys}
+    return fails, {'family_members_judged': n_fam, 'sandwich_histories': n_sw, 'parameter_stepping_histories': n_hist, 'configurations_judged': nj, 'probes_numeric_only': nprobe, 'robustness_experiments': n_rb, 'failed': len(fails), 'failure_keys': keys}
 
 
 def replay(d):
@@ -785,6 +804,14 @@ def replay(d):
     if d.get('kind') == 'fam':
         fl, _ = X.judge_fam(d, cache=False)
         return fl[0] if fl else None
+    if d.get('kind') == 'hist':
+        r = common.call(lambda: H.history(d['sd'], d.get('full', True))[2])
+        if isinstance(r, str):
+            return Failure('history/raises', r, d)
+        for f in r:
+            if d.get('key') is None or f.key == d['key']:
+                return f
+        return r[0] if r and d.get('key') is None else None
     if d.get('kind') == 'sandwich':
         r = common.call(lambda: X.sandwich(d['sd'])[0])
         return Failure('sandwich/raises', r, d) if isinstance(r, str) else r
